@@ -561,6 +561,7 @@ def _info_sets(out, specs, r):
             # new generator is the default stream, for get_stream, get_streams and the updaters
             idf = StreamSeedInformation()
             idf.get_stream("default")
+            idf.get_streams()                      # (somebody looked at the whole set before, too)
             new_default = MersenneTwister(specs[0][1] + 5)
             idf.add_stream("default", new_default)
             if idf.get_stream("default") is not new_default or idf.get_streams().get("default") is not new_default:
@@ -605,6 +606,7 @@ def _info_sets(out, specs, r):
             # the seed list is configured for the NAME and still applies
             if type(r) is int and 0 <= r < 64:
                 upd_a = _seeded(ia.get_seeds())
+                ia.get_streams()
                 ia.add_stream(nm0, MersenneTwister(specs[0][1] + 17))
                 exc = _call(upd_a.update_seed, nm0, ia.get_stream(nm0), r)
                 got_seed = ia.get_stream(nm0).seed()
